@@ -47,6 +47,16 @@ var syncFields = map[string]bool{"t.fd": true}
 type skelWalker struct {
 	fset *token.FileSet
 	toks []string
+	// detail: `return` tokens say whether the last result is the literal nil ("return nil") or not
+	// ("return err"), deferred function literals are walked ("defer{ ... }"), and the calls in
+	// openCalls are part of the skeleton (used for the Open functions, property C10)
+	detail bool
+}
+
+// calls that open or close the connection (Open functions)
+var openCalls = map[string]bool{
+	"c.t.Open": true, "d.Channel.Open": true, "d.Driver.Open": true,
+	"c.Close": true, "d.Channel.Close": true, "d.Driver.Close": true, "d.Close": true,
 }
 
 func (w *skelWalker) render(e ast.Expr) string {
@@ -107,7 +117,7 @@ func (w *skelWalker) expr(e ast.Expr, prefix string) {
 			w.emit(prefix, "close "+w.render(x.Args[0]))
 			return
 		}
-		if syncCalls[fun] {
+		if syncCalls[fun] || (w.detail && openCalls[fun]) {
 			t := "call " + fun
 			for _, a := range x.Args {
 				if id, ok := a.(*ast.Ident); ok && (id.Name == "true" || id.Name == "false") {
@@ -217,7 +227,13 @@ func (w *skelWalker) stmt(s ast.Stmt) {
 		w.expr(x.Value, "")
 		w.emit("", "send "+w.render(x.Chan))
 	case *ast.DeferStmt:
-		w.expr(x.Call, "defer ")
+		if fl, ok := x.Call.Fun.(*ast.FuncLit); ok && w.detail {
+			w.emit("", "defer{")
+			w.stmts(fl.Body.List)
+			w.emit("", "}")
+		} else {
+			w.expr(x.Call, "defer ")
+		}
 	case *ast.GoStmt:
 		if fl, ok := x.Call.Fun.(*ast.FuncLit); ok {
 			w.emit("", "go{")
@@ -230,7 +246,15 @@ func (w *skelWalker) stmt(s ast.Stmt) {
 		for _, r := range x.Results {
 			w.expr(r, "")
 		}
-		w.emit("", "return")
+		if w.detail && len(x.Results) > 0 {
+			if id, ok := x.Results[len(x.Results)-1].(*ast.Ident); ok && id.Name == "nil" {
+				w.emit("", "return nil")
+			} else {
+				w.emit("", "return err")
+			}
+		} else {
+			w.emit("", "return")
+		}
 	case *ast.BranchStmt:
 		switch x.Tok {
 		case token.BREAK:
@@ -297,12 +321,14 @@ func (w *skelWalker) stmt(s ast.Stmt) {
 }
 
 // skeletonOf returns the token list of a function.
-func skeletonOf(rel, fn string) []string {
+func skeletonOf(rel, fn string) []string { return skeletonOfD(rel, fn, false) }
+
+func skeletonOfD(rel, fn string, detail bool) []string {
 	fd := funcDecl(rel, fn)
 	if fd == nil || fd.Body == nil {
 		die("function %s not found in %s (synchronisation skeleton)", fn, rel)
 	}
-	w := &skelWalker{fset: load(rel).fset}
+	w := &skelWalker{fset: load(rel).fset, detail: detail}
 	w.stmts(fd.Body.List)
 	return w.toks
 }
@@ -321,4 +347,13 @@ var skeletonFuncs = [][3]string{
 	{"system_setFd", "transport/system.go", "System.setFd"},
 	{"system_Read", "transport/system.go", "System.Read"},
 	{"system_Close", "transport/system.go", "System.Close"},
+}
+
+// the Open functions: what they open, which returns carry an error, what closes the connection
+// again (property C10: "in every failure case the transport is closed")
+var openFuncs = [][3]string{
+	{"channel_Open", "channel/channel.go", "Channel.Open"},
+	{"generic_Open", "driver/generic/driver.go", "Driver.Open"},
+	{"network_Open", "driver/network/driver.go", "Driver.Open"},
+	{"netconf_Open", "driver/netconf/driver.go", "Driver.Open"},
 }
